@@ -50,7 +50,7 @@ func loadProg(repo string, patterns []string, preludeDir string) (*Prog, error) 
 	if len(P.loadErrs) > 0 {
 		return P, fmt.Errorf("package errors: %s", strings.Join(P.loadErrs, "; "))
 	}
-	prog, _ := ssautil.AllPackages(pkgs, ssa.NaiveForm|ssa.GlobalDebug)
+	prog, _ := ssautil.AllPackages(pkgs, ssa.NaiveForm|ssa.GlobalDebug|ssa.InstantiateGenerics)
 	prog.Build()
 	P.prog = prog
 	P.sizes = types.SizesFor("gc", "amd64")
@@ -69,6 +69,31 @@ func loadProg(repo string, patterns []string, preludeDir string) (*Prog, error) 
 					for i := 0; i < ms.Len(); i++ {
 						if f := prog.MethodValue(ms.At(i)); f != nil && f.Pkg == sp {
 							P.addFunc(f)
+						}
+					}
+				}
+			}
+		}
+	}
+	// instantiations of generic functions (built on demand by InstantiateGenerics): reachable through call sites
+	for changed := true; changed; {
+		changed = false
+		for _, fn := range P.funcs {
+			for _, b := range fn.Blocks {
+				for _, ins := range b.Instrs {
+					c, ok := ins.(ssa.CallInstruction)
+					if !ok {
+						continue
+					}
+					callee := c.Common().StaticCallee()
+					if callee == nil || callee.Origin() == nil || len(callee.Blocks) == 0 {
+						continue
+					}
+					if _, seen := P.funcs[callee.String()]; !seen && callee.Pkg == nil {
+						// instances have no package of their own; attribute them to the origin's
+						if o := callee.Origin(); o.Pkg != nil && strings.HasPrefix(o.Pkg.Pkg.Path(), modulePath) {
+							P.funcs[callee.String()] = callee
+							changed = true
 						}
 					}
 				}
